@@ -33,7 +33,11 @@ KQ_RULE = ("the REAL backend_kqueue.go + fsnotify.go + shared.go + system_bsd.go
            "truncate / remove / rename (also onto an existing name) / mkdir / rmdir / symlink / create-in-subdir, Add (also "
            "with a trailing slash) and Remove of user paths, then Remove of everything and Close; after every step: expected "
            "events by the C18 oracle (multiset), descriptor accounting (simulated registry and /proc/self/fd), WatchList = user "
-           "paths, and the Lean invariant KState.inv evaluated on a snapshot of the implementation's tables")
+           "paths, the path table = user paths + existing files/directories of the watched directories, and the Lean invariant "
+           "KState.invReport evaluated on a snapshot of the implementation's tables; 12% of the steps are coalesced batches "
+           "(simulated kernel held while 2-4 operations run, optionally ending with the watched directory renamed away or "
+           "removed with rm -r); corpus sessions reproduce every listed finding; finally the repository's testdata scripts are "
+           "replayed and compared with upstream's recorded kqueue expectations")
 
 PROPS = {
     "C15": {
@@ -166,7 +170,7 @@ PROPS = {
         "stages": [{"name": "kq", "cmd": "scratch:kq", "what": "C17"}],
         "rule": KQ_RULE,
         "assumptions": ["the kqueue kernel interface is SIMULATED (kqsim/unix): EVFILT_VNODE knotes with EV_CLEAR coalescing, close-pipe EOF; "
-                        "NOTE_* raised on the vnodes FreeBSD would; not validated against a real BSD/macOS kernel (none available)"],
+                        "NOTE_* raised on the vnodes FreeBSD would; validated on every run by replaying the repository's testdata scripts against upstream's recorded kqueue/freebsd expectations (41 match, 25 skipped by their own require lines), not against a real BSD/macOS kernel (none available)"],
     },
     "C18": {
         "lean": ["FsnVerif.Props.C18"],
@@ -371,6 +375,10 @@ def build_scratch(kind, sd, repo, verif, goenv, run):
         shutil.copy(os.path.join(t, "unix", "unix.go.txt"), os.path.join(sd, "unix", "unix.go"))
         shutil.copy(os.path.join(t, "intern", "intern.go.txt"), os.path.join(sd, "intern", "intern.go"))
         shutil.copy(os.path.join(t, "fsn", "hooks.go.txt"), os.path.join(sd, "fsn", "hooks.go"))
+        shutil.copy(os.path.join(t, "scripts.go.txt"), os.path.join(sd, "scripts.go"))
+        shutil.copy(os.path.join(t, "script_deviations.json"), os.path.join(sd, "script_deviations.json"))
+        shutil.rmtree(os.path.join(sd, "testdata"), ignore_errors=True)
+        shutil.copytree(os.path.join(repo, "testdata"), os.path.join(sd, "testdata"))
         for f in ("backend_kqueue.go", "fsnotify.go", "shared.go", "system_bsd.go"):
             src = open(os.path.join(repo, f)).read()
             src = re.sub(r"^//go:build [^\n]*\n", "//go:build linux\n", src, count=1)
